@@ -43,8 +43,9 @@ type sys struct {
 	s   *electricpb.ModelServer
 	clk *fakeClock
 	// bookkeeping of the harness (reference side)
-	created []string // generated ids in creation order
-	changed bool     // the active mode has been changed at least once
+	created []string               // generated ids in creation order
+	changed bool                   // the active mode has been changed at least once
+	cleared []*traits.ElectricMode // what each successful clear-active returned
 }
 
 func newSys() *sys {
@@ -180,10 +181,19 @@ func alphabet(server bool) []op {
 		}
 	}
 	if !server {
-		ops = append(ops, op{name: "ChangeToNormalMode", kind: "clear", run: func(x *sys) error { _, err := x.m.ChangeToNormalMode(); return err }})
+		ops = append(ops, op{name: "ChangeToNormalMode", kind: "clear", run: func(x *sys) error {
+			md, err := x.m.ChangeToNormalMode()
+			if err == nil {
+				x.cleared = append(x.cleared, md)
+			}
+			return err
+		}})
 	} else {
 		ops = append(ops, op{name: "srv.ClearActiveMode", kind: "clear", run: func(x *sys) error {
-			_, err := x.s.ClearActiveMode(ctx, &traits.ClearActiveModeRequest{Name: "n"})
+			md, err := x.s.ClearActiveMode(ctx, &traits.ClearActiveModeRequest{Name: "n"})
+			if err == nil {
+				x.cleared = append(x.cleared, md)
+			}
 			return err
 		}})
 	}
@@ -403,6 +413,9 @@ func concBody(name string, setup []string, threads [][]string) func() {
 	for _, o := range alphabet(false) {
 		all[o.name] = o
 	}
+	for _, o := range alphabet(true) {
+		all[o.name] = o
+	}
 	return func() {
 		x := newSys()
 		for k, n := range setup {
@@ -435,6 +448,13 @@ func concBody(name string, setup []string, threads [][]string) func() {
 			}()
 		}
 		wg.Wait()
+		// "clearing the active mode selects the normal mode": in every sequential order of the calls a clear that
+		// succeeds returns a mode that is marked normal at that moment (at most one scenario thread clears)
+		for _, md := range x.cleared {
+			if !md.GetNormal() {
+				verifrt.Logf("FAIL clear-returned-non-normal %s ## clearing the active mode succeeded and returned %v, which is not marked normal; results %v", name, md, results)
+			}
+		}
 		s := x.snap()
 		if k, m := invariants(x, s); k != "" {
 			verifrt.Logf("FAIL %s %s ## %s; results %v", k, name, m, results)
@@ -490,5 +510,11 @@ func main() {
 	conc([]string{A, AN}, []string{"ChangeActiveMode(x)", "DeleteMode(y,allowMissing=false)"}, []string{"ChangeToNormalMode"})
 	conc([]string{A}, []string{"DeleteMode(x,allowMissing=false)"}, []string{"ChangeActiveMode(x)"}, []string{"AddMode(x,normal=true)"})
 	conc([]string{A}, []string{"UpdateMode(x,normal=true)"}, []string{"AddMode(y,normal=true)"}, []string{"CreateMode(normal=true)"})
+	// through the servers: the clear must pick the normal mode atomically with switching to it
+	conc([]string{A, AN}, []string{"srv.ClearActiveMode"}, []string{"srv.UpdateMode(y,normal=false)"})
+	conc([]string{A, AN}, []string{"srv.ClearActiveMode"}, []string{"srv.UpdateMode(y,normal=false)", "srv.UpdateMode(x,normal=true)"})
+	conc([]string{A, AN}, []string{"ChangeToNormalMode"}, []string{"UpdateMode(y,normal=false)", "UpdateMode(x,normal=true)"})
+	conc([]string{A, AN}, []string{"srv.ClearActiveMode"}, []string{"srv.DeleteMode(y,allowMissing=false)"})
+	conc([]string{A, AN}, []string{"srv.UpdateActiveMode(x)"}, []string{"srv.DeleteMode(x,allowMissing=false)"})
 	h.Run()
 }
